@@ -79,6 +79,7 @@ func main() {
 	lap("fixed")
 	h.exhaustive(f.Scale(3, 4))
 	lap("exhaustive")
+	h.validateStage()
 	h.sequencerProbe(root.Fork(6_666_666))
 	h.fallbackProbe(root.Fork(5_555_555))
 	lap("probes")
